@@ -397,12 +397,17 @@ def execute(sim, plan):
         def cross_line_path():
             """A merged (non-mainline) revision of the view in which a logged file has another
             path than in the mainline revision that merged it."""
+            main_paths = {f: {r_path(m)[f] for m in view_main} - {None} for f in fids}
             for r in sorted(s0, key=lambda x: order[x]):
                 if r in lh:
                     continue
                 m = gm.merger(r, tip)
                 pr, pm = r_path(r), r_path(m)
                 if any(pr[f] is not None and pm[f] is not None and pr[f] != pm[f] for f in fids):
+                    return r
+                # or the path the file has on the mainline names ANOTHER file in the merged revision
+                t = mh.tree(r)
+                if any(p in t and t[p][0] != f for f in fids for p in main_paths[f]):
                     return r
             return None
 
@@ -434,7 +439,8 @@ def execute(sim, plan):
         if fwd_full is not None:
             if isinstance(fwd_full, Exception):
                 deviation("perfile_forward", f"{algo}:{type(fwd_full).__name__}", f"log {where} (forward, {algo}) raised {type(fwd_full).__name__}: {fwd_full}; the reverse log lists mainline {got}")
-            elif sorted(mainline_of(fwd_full)) != sorted(E1):
+            elif sorted(mainline_of(fwd_full)) != sorted(got):
+                # forward is a re-ordering of reverse; what reverse itself lists is judged above
                 deviation("perfile_forward", f"{algo}:mainline-set", f"log {where} (forward, {algo}) lists mainline {mainline_of(fwd_full)}; the reverse log lists {got}; touching mainline revisions are {E1}")
 
     nontrivial = False
